@@ -1425,7 +1425,16 @@ class ReShim:
         self.calls = 0
 
     def __getattr__(self, name):
-        return getattr(_re, name)
+        real = getattr(_re, name)
+        if not callable(real) or isinstance(real, type):
+            return real             # flags, error, Pattern, Match, ...
+
+        def guarded(*a, **kw):      # a function of `re` without a stand-in: fine on plain arguments only
+            if any(has_sym(x) for x in a) or any(has_sym(x) for x in kw.values()):
+                raise HarnessError(f're.{name} on a symbolic string is not modelled')
+            return real(*a, **kw)
+        guarded.__name__ = name
+        return guarded
 
     def compile(self, pattern, flags=0):
         if isinstance(pattern, SPattern):
